@@ -42,3 +42,21 @@ Section Closed.
     forall p id ir, In (p, (id, ir)) m ->
                     p <> [] /\ last p "" = pi_name (item_of_ir s ir) /\ item_closed ir.
 End Closed.
+
+(** what [Proofs/ParseClosed.v] does not derive from [generate] (see [closedb_emitted_partial]) *)
+Definition keys_prefix_free (m : items) : Prop :=
+  forall p q x l, In p (map fst m) -> In q (map fst m) -> q <> p ++ x :: l.
+
+Definition nodes_extra (s : settings) (m : items) : Prop :=
+  forall p id ir, In (p, (id, ir)) m ->
+  forall f, In f (kind_fields (ti_kind ir)) ->
+  tokenizable (fi_path f) = true /\
+  forall x, In x (subpaths (fi_path f)) ->
+  match x with
+  | TPath ptoks params =>
+      forall q id' ir', ptoks = rel_path (s_root s :: q) -> items_get m q = Some (id', ir') ->
+                        List.length params = List.length (ti_params ir')
+  | TCompact _ false c => hd_is (s_root s) c = false
+  | TBitVec _ _ b => hd_is (s_root s) b = false
+  | _ => True
+  end.
